@@ -10,27 +10,28 @@ import (
 	"sort"
 	"strconv"
 	"strings"
+	"sync"
 	"syscall"
 	"time"
 )
 
 // Parent drives worker processes for one (property, tier, seed) run.
 type Parent struct {
-	Prop      Property
-	Tier      string
-	Seed      int64
-	Self      string // path of this binary
-	RaceBin   string // path of the -race build (C16)
-	VerifDir  string
-	WorkDir   string
-	Workers   int
-	HangCPU   float64 // CPU seconds without WAL progress before a worker is dumped
-	MaxRSSMiB int64   // resident memory of one worker above which it is dumped and stopped
-	Start     time.Time
-	ExtraCov  map[string]any // property specific additions to coverage
-	Assume    []string
-	Trusted   []string
-	Exhaustive bool
+	Prop           Property
+	Tier           string
+	Seed           int64
+	Self           string // path of this binary
+	RaceBin        string // path of the -race build (C16)
+	VerifDir       string
+	WorkDir        string
+	Workers        int
+	HangCPU        float64 // CPU seconds without WAL progress before a worker is dumped
+	MaxRSSMiB      int64   // resident memory of one worker above which it is dumped and stopped
+	Start          time.Time
+	ExtraCov       map[string]any // property specific additions to coverage
+	Assume         []string
+	Trusted        []string
+	Exhaustive     bool
 	ExhaustiveNote string
 }
 
@@ -234,6 +235,33 @@ func headFile(path string, n int) string {
 // RunWorkers executes the property's unit list in sharded worker processes and
 // returns the merged result.  Crashes and hangs of a worker are diagnosed from the
 // write-ahead log and turned into violations (or inconclusive notes).
+// waitFine waits for a fine-mode re-run of one unit: until it ends, or until it has
+// used half the hang budget of CPU time without logging a step, or two minutes.
+func (p *Parent) waitFine(fw *workerRun) {
+	deadline := time.Now().Add(2 * time.Minute)
+	var lastWal int64 = -1
+	var cpuAt float64
+	for {
+		select {
+		case <-fw.done:
+			return
+		case <-time.After(200 * time.Millisecond):
+		}
+		var sz int64
+		if st, err := os.Stat(fw.wal); err == nil {
+			sz = st.Size()
+		}
+		cpu := cpuSeconds(fw.cmd.Process.Pid)
+		if sz != lastWal {
+			lastWal, cpuAt = sz, cpu
+		} else if (cpu >= 0 && cpu-cpuAt > p.HangCPU/2) || time.Now().After(deadline) {
+			fw.cmd.Process.Kill()
+			<-fw.done
+			return
+		}
+	}
+}
+
 func (p *Parent) RunWorkers() *Result {
 	merged := &Result{}
 	units := p.Prop.Gen(p.Tier, p.Seed)
@@ -263,6 +291,13 @@ func (p *Parent) RunWorkers() *Result {
 	}
 	live := len(ws)
 	finished := make([]bool, len(ws))
+	var pending sync.WaitGroup
+	var fineMu sync.Mutex
+	var fineViol []Violation
+	defer func() {
+		pending.Wait()
+		merged.Violations = append(merged.Violations, fineViol...)
+	}()
 	for live > 0 {
 		time.Sleep(200 * time.Millisecond)
 		for i, w := range ws {
@@ -319,26 +354,32 @@ func (p *Parent) RunWorkers() *Result {
 					}
 				}
 				if v.Key != "" {
-					// pin down the inner step by re-running just this unit in fine mode
-					if step == "" {
-						fd := filepath.Join(w.dir, fmt.Sprintf("fine%d", idx))
-						os.MkdirAll(fd, 0o755)
-						fw := &workerRun{shard: w.shard, dir: fd, wal: filepath.Join(fd, "wal"), out: filepath.Join(fd, "result.json"), errf: filepath.Join(fd, "stderr")}
-						if p.startWorker(fw, "-only", fmt.Sprint(idx), "-fine") == nil {
-							select {
-							case <-fw.done:
-							case <-time.After(5 * time.Minute):
-								fw.cmd.Process.Kill()
-							}
-							_, _, st := lastOpenUnit(fw.wal)
-							v.Inner = st
-						}
-					}
-					merged.Violations = append(merged.Violations, v)
+					// pin down the inner step by re-running just this unit in fine mode —
+					// in the background (the monitor loop must keep watching the other
+					// workers), for the first three violations of a key only
 					if merged.ViolCounts == nil {
 						merged.ViolCounts = map[string]int64{}
 					}
 					merged.ViolCounts[v.Key]++
+					if step == "" && merged.ViolCounts[v.Key] <= 3 {
+						fd := filepath.Join(w.dir, fmt.Sprintf("fine%d", idx))
+						os.MkdirAll(fd, 0o755)
+						fw := &workerRun{shard: w.shard, dir: fd, wal: filepath.Join(fd, "wal"), out: filepath.Join(fd, "result.json"), errf: filepath.Join(fd, "stderr")}
+						pending.Add(1)
+						go func(v Violation, fw *workerRun, idx int) {
+							defer pending.Done()
+							if p.startWorker(fw, "-only", fmt.Sprint(idx), "-fine") == nil {
+								p.waitFine(fw)
+								_, _, st := lastOpenUnit(fw.wal)
+								v.Inner = st
+							}
+							fineMu.Lock()
+							fineViol = append(fineViol, v)
+							fineMu.Unlock()
+						}(v, fw, idx)
+					} else {
+						merged.Violations = append(merged.Violations, v)
+					}
 				}
 				w.crashes++
 				w.hung, w.bloated = false, false
@@ -563,14 +604,14 @@ func (p *Parent) Conclude(merged *Result) int {
 		cov["inconclusive_notes"] = merged.Inconclusive
 	}
 	ev := map[string]any{
-		"property_id": id,
-		"tier":        p.Tier,
-		"seed":        p.Seed,
-		"level":       "exploration",
-		"coverage":    cov,
-		"assumptions": assume,
-		"wall_s":      wall,
-		"violations":  newViol,
+		"property_id":        id,
+		"tier":               p.Tier,
+		"seed":               p.Seed,
+		"level":              "exploration",
+		"coverage":           cov,
+		"assumptions":        assume,
+		"wall_s":             wall,
+		"violations":         newViol,
 		"known_finding_hits": knownViol,
 	}
 	evDir := os.Getenv("VERIF_EVIDENCE_DIR")
